@@ -402,6 +402,13 @@ func (c GeometryCollection) CoordinatesType() CoordinatesType {
 // ForceCoordinatesType returns a new GeometryCollection with a different CoordinatesType. If
 // a dimension is added, then new values are populated with 0.
 func (c GeometryCollection) ForceCoordinatesType(newCType CoordinatesType) GeometryCollection {
+	if c.ctype == newCType {
+		// Already of the requested type (children always have the same type
+		// as their parent collection), so there is nothing to convert.
+		// Copying the whole subtree here would make construction of nested
+		// collections quadratic in the nesting depth.
+		return c
+	}
 	gs := make([]Geometry, len(c.geoms))
 	for i := range c.geoms {
 		gs[i] = c.geoms[i].ForceCoordinatesType(newCType)
